@@ -82,6 +82,8 @@ structure InvS (a : ACfg) (s : St) : Prop where
   v2 : s.cpc = .waitV2 → s.astatus .V2 = .cancelled ∨ alive2 (s.astatus .V2) = false
   dn : s.built = true → (s.cpc = .waitV2 ∨ lateStage s.cpc = true) → alive2 (s.astatus .D2) = false ∧ s.disp2Set = false
   vn : s.built = true → lateStage s.cpc = true → alive2 (s.astatus .V2) = false
+  da : alive2 (s.astatus .D2) = true → s.disp2Set = true
+  vs : s.astatus .V2 ≠ .waitE
 
 /-! ### frames -/
 
@@ -115,8 +117,8 @@ def score (s : St) : (ATid → AStatus) × (ATid → AProg) × CPc × Bool × Op
 theorem InvS.of_core {a : ACfg} {s s' : St} (h : score s' = score s) (i : InvS a s) : InvS a s' := by
   simp only [score, Prod.mk.injEq] at h
   obtain ⟨h1, h2, h3, h4, h5, h6⟩ := h
-  obtain ⟨nb, we, wv, ty, wq, d2, cc, hc, can, v2, dn, vn⟩ := i
-  refine ⟨?_, ?_, ?_, ?_, ?_, ?_, ?_, ?_, ?_, ?_, ?_, ?_⟩
+  obtain ⟨nb, we, wv, ty, wq, d2, cc, hc, can, v2, dn, vn, da, vs⟩ := i
+  refine ⟨?_, ?_, ?_, ?_, ?_, ?_, ?_, ?_, ?_, ?_, ?_, ?_, ?_, ?_⟩
   · rw [h1, h4]; exact nb
   · rw [h1, h5]; exact we
   · rw [h1]; exact wv
@@ -129,6 +131,8 @@ theorem InvS.of_core {a : ACfg} {s s' : St} (h : score s' = score s) (i : InvS a
   · rw [h1, h3]; exact v2
   · rw [h1, h3, h4, h6]; exact dn
   · rw [h1, h3, h4]; exact vn
+  · rw [h1, h6]; exact da
+  · rw [h1]; exact vs
 
 @[simp] theorem score_emit2 (s : St) (o : AObs) : score (s.emit2 o) = score s := rfl
 
@@ -155,8 +159,8 @@ theorem InvS.wake2 {a : ACfg} {s : St} (i : InvS a s) (t : ATid) : InvS a (s.wak
   unfold St.wake2
   split
   · rename_i hw
-    obtain ⟨nb, we, wv, ty, wq, d2, cc, hc, can, v2, dn, vn⟩ := i
-    refine ⟨?_, ?_, ?_, ?_, ?_, ?_, ?_, ?_, ?_, ?_, ?_, ?_⟩ <;> simp only [St.setA] <;> grind [alive2]
+    obtain ⟨nb, we, wv, ty, wq, d2, cc, hc, can, v2, dn, vn, da, vs⟩ := i
+    refine ⟨?_, ?_, ?_, ?_, ?_, ?_, ?_, ?_, ?_, ?_, ?_, ?_, ?_, ?_⟩ <;> simp only [St.setA] <;> grind [alive2]
   · exact i
 
 theorem bcore2_wake2 (s : St) (t : ATid) : bcore2 (s.wake2 t) = bcore2 s := by
@@ -224,5 +228,231 @@ theorem innerStep_K {a : ACfg} {s : St} (e : Sess.Ev) (ib : InvB2 a s) (is : Inv
   have hs0 : InvS a (innerPart a s e) := InvS.of_core (s := s) rfl is
   rw [innerStep_eq]
   exact feed_K _ hb0 hs0
+
+
+/-! ### the application-level close sequence -/
+
+@[simp] theorem trace2_setA (s : St) (t : ATid) (x : AStatus) : (s.setA t x).trace2 = s.trace2 := rfl
+@[simp] theorem trace2_setP (s : St) (t : ATid) (p : AProg) : (s.setP t p).trace2 = s.trace2 := rfl
+@[simp] theorem trace2_finish2 (s : St) (t : ATid) : (s.finish2 t).trace2 = s.trace2 := rfl
+@[simp] theorem trace2_setEvent (s : St) : s.setEvent.trace2 = s.trace2 := by
+  unfold St.setEvent; split <;> rfl
+@[simp] theorem trace2_cancel2 (s : St) (t : ATid) : (s.cancel2 t).trace2 = s.trace2 := by
+  unfold St.cancel2; split <;> try rfl
+  split <;> rfl
+
+@[simp] theorem built_setEvent (s : St) : s.setEvent.built = s.built := by unfold St.setEvent; split <;> rfl
+@[simp] theorem cpc_setEvent (s : St) : s.setEvent.cpc = s.cpc := by unfold St.setEvent; split <;> rfl
+@[simp] theorem tr_setEvent (s : St) : s.setEvent.tr = s.tr := by unfold St.setEvent; split <;> rfl
+
+/-- inside `_on_soup_close`, before the user's close callback: what holds whatever the position -/
+structure PreC (a : ACfg) (s : St) : Prop where
+  built : s.built = true
+  qc : s.q2Closed = true
+  cl : s.inner.closed = true
+  tc : Sess.Obs.tclose ∈ s.inner.trace
+  ev : s.evt ≠ some true
+  cf : a.closedFirst = true → s.appClosed = true
+  we : ∀ t, s.astatus t = .waitE → s.evt = some false
+  wv : ∀ t, s.astatus t = .waitV → alive2 (s.astatus .V2) = true ∧ ∃ u, t = .W u
+  ty : ∀ t, alive2 (s.astatus t) = true → allowed2 t (s.aprog t) = true
+  wq : ∀ t, s.astatus t = .waitQ → t = .D2 ∨ t = .V2
+  cc : ∀ v, s.aprog .D2 = .cleanupClose v → alive2 (s.astatus .D2) = true → a.closedFirst = false
+  hc : ∀ v, s.aprog .D2 = .handlerClose v → alive2 (s.astatus .D2) = true → a.msgBeh v = .close
+  da : alive2 (s.astatus .D2) = true → s.disp2Set = true
+  vs : s.astatus .V2 ≠ .waitE
+
+/-- the flag and task invariants at the state in which the closer is about to return from `_on_soup_close`
+    (`cpc := finished`, event set): what `finishClose` needs -/
+theorem finished_K {a : ACfg} {s : St} (p : PreC a s) (hD : alive2 (s.astatus .D2) = false) (hds : s.disp2Set = false)
+    (hV : alive2 (s.astatus .V2) = false) (hac : s.appClosed = true)
+    (hph : mon2Run s.trace2 = if a.hasCb then 2 else 0) :
+    InvB2 a { s.setEvent with cpc := .finished } ∧ InvS a { s.setEvent with cpc := .finished } := by
+  obtain ⟨built, qc, cl, tc, ev, cf, we, wv, ty, wq, cc, hc, da, vs⟩ := p
+  have hph' : mon2Run ({ s.setEvent with cpc := .finished } : St).trace2 = phase2 a { s.setEvent with cpc := .finished } := by
+    show mon2Run s.setEvent.trace2 = _
+    rw [trace2_setEvent, hph]
+    simp [phase2, built]
+  constructor
+  · refine ⟨?_, ?_, ?_, ?_, ?_, ?_, ?_, ?_, ?_, ?_, ?_, ?_, hph'⟩ <;> unfold St.setEvent <;> grind [midStage, lateStage]
+  · refine ⟨?_, ?_, ?_, ?_, ?_, ?_, ?_, ?_, ?_, ?_, ?_, ?_, ?_, ?_⟩ <;> unfold St.setEvent <;> grind [midStage, lateStage, alive2]
+
+
+theorem PreC.emit2 {a : ACfg} {s : St} (p : PreC a s) (o : AObs) : PreC a (s.emit2 o) := by
+  obtain ⟨built, qc, cl, tc, ev, cf, we, wv, ty, wq, cc, hc, da, vs⟩ := p
+  exact ⟨built, qc, cl, tc, ev, cf, we, wv, ty, wq, cc, hc, da, vs⟩
+
+theorem finishClose_K {a : ACfg} {s : St} (t : Sess.Tid) (p : PreC a s) (hD : alive2 (s.astatus .D2) = false)
+    (hds : s.disp2Set = false) (hV : alive2 (s.astatus .V2) = false) (hac : s.appClosed = true)
+    (hph : mon2Run s.trace2 = if a.hasCb then 2 else 0) :
+    InvB2 a (finishClose a s.setEvent t) ∧ InvS a (finishClose a s.setEvent t) := by
+  obtain ⟨h1, h2⟩ := finished_K p hD hds hV hac hph
+  exact innerStep_K _ h1 h2
+
+theorem endCb_K {a : ACfg} {s : St} (t : Sess.Tid) (p : PreC a s) (hD : alive2 (s.astatus .D2) = false)
+    (hds : s.disp2Set = false) (hV : alive2 (s.astatus .V2) = false) (hac : s.appClosed = true)
+    (hcb : a.hasCb = true) (hph : mon2Run s.trace2 = 1) :
+    InvB2 a (endCb a s t) ∧ InvS a (endCb a s t) := by
+  unfold endCb
+  refine finishClose_K t (p.emit2 _) hD hds hV hac ?_
+  rw [trace2_emit2, mon2Run_append, hph, hcb]
+  rfl
+
+theorem afterStop_K {a : ACfg} {s : St} (t : Sess.Tid) (p : PreC a s) (hD : alive2 (s.astatus .D2) = false)
+    (hds : s.disp2Set = false) (hV : alive2 (s.astatus .V2) = false) (hph : mon2Run s.trace2 = 0) :
+    InvB2 a (afterStop a s t) ∧ InvS a (afterStop a s t) := by
+  unfold afterStop
+  have p1 : PreC a { s with appClosed := true } := by
+    obtain ⟨built, qc, cl, tc, ev, cf, we, wv, ty, wq, cc, hc, da, vs⟩ := p
+    exact ⟨built, qc, cl, tc, ev, fun _ => rfl, we, wv, ty, wq, cc, hc, da, vs⟩
+  simp only
+  split
+  · rename_i hcb
+    refine finishClose_K t p1 hD hds hV rfl ?_
+    show mon2Run s.trace2 = _
+    rw [hph]; simp at hcb; simp [hcb]
+  · rename_i hcb
+    have hcb' : a.hasCb = true := by simpa using hcb
+    have hph1 : mon2Run (({ s with appClosed := true } : St).emit2 .cbEnter).trace2 = 1 := by
+      rw [trace2_emit2, mon2Run_append]
+      show mon2 (mon2Run s.trace2) .cbEnter = 1
+      rw [hph]; rfl
+    split
+    · -- the user's close callback suspends
+      rename_i k hk
+      obtain ⟨built, qc, cl, tc, ev, cf, we, wv, ty, wq, cc, hc, da, vs⟩ := p
+      have hph' : mon2Run ({ (({ s with appClosed := true } : St).emit2 .cbEnter) with cpc := .user k } : St).trace2
+          = phase2 a { (({ s with appClosed := true } : St).emit2 .cbEnter) with cpc := .user k } := hph1
+      constructor
+      · refine ⟨?_, ?_, ?_, ?_, ?_, ?_, ?_, ?_, ?_, ?_, ?_, ?_, hph'⟩ <;> simp only [St.emit2] <;> grind [midStage, lateStage]
+      · refine ⟨?_, ?_, ?_, ?_, ?_, ?_, ?_, ?_, ?_, ?_, ?_, ?_, ?_, ?_⟩ <;> simp only [St.emit2] <;> grind [midStage, lateStage, alive2]
+    · refine endCb_K t ((p1.emit2 _).emit2 _) hD hds hV rfl hcb' ?_
+      rw [trace2_emit2, mon2Run_append, hph1]; rfl
+    · exact endCb_K t (p1.emit2 _) hD hds hV rfl hcb' hph1
+
+/-- cancelling a live task that is not awaiting the helper: it is runnable with the cancellation pending -/
+theorem cancel2_alive (s : St) (t : ATid) (h : alive2 (s.astatus t) = true) (hv : s.astatus t ≠ .waitV) :
+    s.cancel2 t = s.setA t .cancelled := by
+  unfold St.cancel2
+  cases hs : s.astatus t with
+  | absent => rw [hs] at h; simp [alive2] at h
+  | done => rw [hs] at h; simp [alive2] at h
+  | waitV => exact absurd hs hv
+  | cancelled =>
+    simp only
+    cases s
+    simp only [St.setA, St.mk.injEq, true_and, and_true]
+    funext x
+    split
+    · rename_i e; subst e; exact hs
+    · rfl
+  | _ => rfl
+
+theorem stopV2_K {a : ACfg} {s : St} (t : Sess.Tid) (p : PreC a s) (hD : alive2 (s.astatus .D2) = false)
+    (hds : s.disp2Set = false) (hph : mon2Run s.trace2 = 0) :
+    InvB2 a (stopV2 a s t) ∧ InvS a (stopV2 a s t) := by
+  unfold stopV2
+  split
+  · rename_i hV
+    obtain ⟨built, qc, cl, tc, ev, cf, we, wv, ty, wq, cc, hc, da, vs⟩ := p
+    have hph' : mon2Run ({ (s.cancel2 .V2) with cpc := .waitV2 } : St).trace2
+        = phase2 a { (s.cancel2 .V2) with cpc := .waitV2 } := by
+      show mon2Run (s.cancel2 .V2).trace2 = 0
+      rw [trace2_cancel2]; exact hph
+    have hvv : s.astatus .V2 ≠ .waitV := by
+      intro h; obtain ⟨_, u, hu⟩ := wv _ h; cases hu
+    rw [cancel2_alive s .V2 hV hvv] at hph' ⊢
+    constructor
+    · refine ⟨?_, ?_, ?_, ?_, ?_, ?_, ?_, ?_, ?_, ?_, ?_, ?_, hph'⟩ <;> simp only [St.setA] <;> grind [midStage, lateStage]
+    · refine ⟨?_, ?_, ?_, ?_, ?_, ?_, ?_, ?_, ?_, ?_, ?_, ?_, ?_, ?_⟩ <;> simp only [St.setA] <;>
+        grind [midStage, lateStage, alive2]
+  · rename_i hV
+    exact afterStop_K t p hD hds (by simpa using hV) hph
+
+theorem stopD2_K {a : ACfg} {s : St} (t : Sess.Tid) (p : PreC a s) (hph : mon2Run s.trace2 = 0) :
+    InvB2 a (stopD2 a s t) ∧ InvS a (stopD2 a s t) := by
+  unfold stopD2
+  split
+  · rename_i hDa
+    obtain ⟨built, qc, cl, tc, ev, cf, we, wv, ty, wq, cc, hc, da, vs⟩ := p
+    have hph' : mon2Run ({ (s.cancel2 .D2) with cpc := .waitD2 } : St).trace2
+        = phase2 a { (s.cancel2 .D2) with cpc := .waitD2 } := by
+      show mon2Run (s.cancel2 .D2).trace2 = 0
+      rw [trace2_cancel2]; exact hph
+    have hDa' : alive2 (s.astatus .D2) = true := by simp at hDa; exact hDa.2
+    have hdv : s.astatus .D2 ≠ .waitV := by
+      intro h; obtain ⟨_, u, hu⟩ := wv _ h; cases hu
+    rw [cancel2_alive s .D2 hDa' hdv] at hph' ⊢
+    constructor
+    · refine ⟨?_, ?_, ?_, ?_, ?_, ?_, ?_, ?_, ?_, ?_, ?_, ?_, hph'⟩ <;> simp only [St.setA] <;> grind [midStage, lateStage]
+    · refine ⟨?_, ?_, ?_, ?_, ?_, ?_, ?_, ?_, ?_, ?_, ?_, ?_, ?_, ?_⟩ <;> simp only [St.setA] <;>
+        grind [midStage, lateStage, alive2]
+  · rename_i hDa
+    have hD : alive2 (s.astatus .D2) = false := by
+      cases h : alive2 (s.astatus .D2) with
+      | false => rfl
+      | true => have := p.da h; simp [this, h] at hDa
+    have p1 : PreC a { s with disp2Set := false } := by
+      obtain ⟨built, qc, cl, tc, ev, cf, we, wv, ty, wq, cc, hc, da, vs⟩ := p
+      exact ⟨built, qc, cl, tc, ev, cf, we, wv, ty, wq, cc, hc, fun h => by rw [hD] at h; contradiction, vs⟩
+    exact stopV2_K t p1 hD rfl hph
+
+
+/-- the invariants give the common facts of the close sequence -/
+theorem PreC.of_inv {a : ACfg} {s : St} (ib : InvB2 a s) (is : InvS a s) (hb : s.built = true) (hq : s.q2Closed = true)
+    (hc : s.cpc ≠ .idle) (hnf : s.cpc ≠ .finished) : PreC a s :=
+  ⟨hb, hq, ib.b hc, ib.tc hc, fun h => hnf (ib.ev1 h), fun h => ib.ac3 h hb hc, is.we, is.wv, is.ty, is.wq, is.cc, is.hc, is.da,
+    is.vs⟩
+
+theorem onSoupClose_K {a : ACfg} {s : St} (t : Sess.Tid) (ib : InvB2 a s) (is : InvS a s) (hidle : s.cpc = .idle)
+    (hcl : s.inner.closed = true) (htc : Sess.Obs.tclose ∈ s.inner.trace) :
+    InvB2 a (onSoupClose a s t) ∧ InvS a (onSoupClose a s t) := by
+  unfold onSoupClose
+  have hph0 : mon2Run s.trace2 = 0 := by rw [ib.ph]; simp [phase2, hidle]
+  split
+  · -- no application session yet: no close callback on the soup session
+    rename_i hb
+    have hb' : s.built = false := by simpa using hb
+    have h1 : InvB2 a { s with cpc := .finished } ∧ InvS a { s with cpc := .finished } := by
+      obtain ⟨b, tc, bu, q, q', ac1, ac2, ac3, ev1, ev2, ev0, ub, ph⟩ := ib
+      obtain ⟨nb, we, wv, ty, wq, d2, cc, hc, can, v2, dn, vn, da, vs⟩ := is
+      have hph' : mon2Run ({ s with cpc := .finished } : St).trace2 = phase2 a { s with cpc := .finished } := by
+        show mon2Run s.trace2 = _
+        rw [hph0]; simp [phase2, hb']
+      constructor
+      · refine ⟨?_, ?_, ?_, ?_, ?_, ?_, ?_, ?_, ?_, ?_, ?_, ?_, hph'⟩ <;> grind [midStage, lateStage]
+      · refine ⟨?_, ?_, ?_, ?_, ?_, ?_, ?_, ?_, ?_, ?_, ?_, ?_, ?_, ?_⟩ <;> grind [midStage, lateStage, alive2]
+    exact innerStep_K _ h1.1 h1.2
+  · rename_i hb
+    have hb' : s.built = true := by simpa using hb
+    have hq0 : s.q2Closed = false := by
+      cases h : s.q2Closed with
+      | false => rfl
+      | true => exact absurd hidle (ib.q' h).2
+    have hev : s.evt ≠ some true := fun h => by have := ib.ev1 h; rw [hidle] at this; contradiction
+    have key : ∀ s1 : St, s1.inner = s.inner → s1.built = s.built → s1.q2Closed = s.q2Closed → s1.evt = s.evt →
+        s1.astatus = s.astatus → s1.aprog = s.aprog → s1.disp2Set = s.disp2Set → s1.trace2 = s.trace2 →
+        (a.closedFirst = true → s1.appClosed = true) →
+        InvB2 a (if s1.q2Closed = true then afterStop a s1 t else stopD2 a { s1 with q2Closed := true } t) ∧
+        InvS a (if s1.q2Closed = true then afterStop a s1 t else stopD2 a { s1 with q2Closed := true } t) := by
+      intro s1 e1 e2 e3 e4 e5 e6 e7 e8 hcf
+      rw [e3, hq0]
+      simp only [Bool.false_eq_true, if_false]
+      have p : PreC a { s1 with q2Closed := true } :=
+        ⟨by show s1.built = true; rw [e2]; exact hb', rfl, by show s1.inner.closed = true; rw [e1]; exact hcl,
+          by show _ ∈ s1.inner.trace; rw [e1]; exact htc, by show s1.evt ≠ _; rw [e4]; exact hev, hcf,
+          by show ∀ t, s1.astatus t = _ → s1.evt = _; rw [e5, e4]; exact is.we,
+          by show ∀ t, s1.astatus t = _ → alive2 (s1.astatus .V2) = true ∧ _; rw [e5]; exact is.wv,
+          by show ∀ t, alive2 (s1.astatus t) = true → allowed2 t (s1.aprog t) = true; rw [e5, e6]; exact is.ty,
+          by show ∀ t, s1.astatus t = _ → _; rw [e5]; exact is.wq,
+          by show ∀ v, s1.aprog .D2 = _ → alive2 (s1.astatus .D2) = true → _; rw [e5, e6]; exact is.cc,
+          by show ∀ v, s1.aprog .D2 = _ → alive2 (s1.astatus .D2) = true → _; rw [e5, e6]; exact is.hc,
+          by show alive2 (s1.astatus .D2) = true → s1.disp2Set = true; rw [e5, e7]; exact is.da,
+          by show s1.astatus .V2 ≠ _; rw [e5]; exact is.vs⟩
+      exact stopD2_K t p (by show mon2Run s1.trace2 = 0; rw [e8]; exact hph0)
+    apply key
+    all_goals first | (split <;> rfl) | skip
+    intro hcf
+    rw [if_pos hcf]
 
 end NasdaqModel.App
